@@ -8,59 +8,78 @@
     = False`), compared on every run with the real printer's text and with the first model (`corr/C12_text.py`);
   * `docToAst` is the tree an SDL document of the C11/C12 model denotes (descriptions are block strings);
   * `printTextWF` is the ONE decidable lexical well-formedness predicate;
-  * THE STATEMENT `PrintSchemaTextParsesStatement`: the printed text of a schema in printing order that satisfies
-    `printTextWF` is accepted by lexer and parser and parses to the denoted tree;  the composition with
+  * THE STATEMENT `PrintSchemaTextParsesStatement`: the printed text of EVERY schema that satisfies `printTextWF` is accepted
+    by lexer and parser and parses to the tree of the document in printing order (`printedDoc s`);  the composition with
     `print_build_roundtrip` is `TextRoundtrip`.
-  Proved so far: LAYER (i) — schemas without printed descriptions and without default values
-  (`print_schema_text_parses_partial`, `text_roundtrip_partial`).  The statement is evaluated by the driver on every
-  generated schema that satisfies `printTextWF` (op `printT`).
+  PROVED: the statement in full (`print_schema_text_parses`: all six kinds of types, arguments in both layouts of
+  `print_arguments`, descriptions in every position and in the three layouts of `print_description`, default values,
+  `@deprecated`, directive definitions, the `schema` block, every indentation over {space, tab}; lists of types and
+  directives in any order — `sortBy` is idempotent on distinct names, `valueLit` looks types up by name) and its composition
+  `text_roundtrip`.  The statement is also evaluated by the driver on every generated schema that satisfies `printTextWF`
+  (op `printT`).
 -/
-import PyGqlModel.Lemmas.SdlTextLayer1
+import PyGqlModel.Lemmas.SdlTextFull
+import PyGqlModel.Lemmas.SdlTextPrintOrder
 import PyGqlModel.Props.C12_print_build
 import PyGqlModel.Props.C12_examples
 namespace PyGql.Props.C12
 open PyGql PyGql.Ast PyGql.Sdl PyGql.SdlPrint PyGql.SdlText
 
-/-- the schema with its lists in the order the printer writes them -/
-def printOrder (s : SchemaD) : SchemaD :=
-  { s with directives := sortBy (·.name) s.directives, types := sortBy (·.name) s.types }
-
 theorem printedDoc_eq (s : SchemaD) : printedDoc s = schemaToDoc (printOrder s) := rfl
 
-/-- THE FULL STATEMENT `print_schema_text_parses`: for every printer configuration and every schema in printing order that
-    satisfies the lexical well-formedness predicate `printTextWF`, the printed text is accepted by the lexer and the parser
-    (`allow_type_system`, `no_location`) and parses to the tree of the document the printer denotes. -/
+/-- THE FULL STATEMENT `print_schema_text_parses`: for every printer configuration and EVERY schema (lists in any order)
+    that satisfies the lexical well-formedness predicate `printTextWF`, the printed text is accepted by the lexer and the
+    parser (`allow_type_system`, `no_location`) and parses to the tree of the document the printer denotes (`printedDoc s`:
+    schema block, directive definitions by name, type definitions by name). -/
 def PrintSchemaTextParsesStatement : Prop :=
-  ∀ (o : SdlPrintT.OptsT) (s : SchemaD), InPrintOrder s → printTextWF o s = true →
-    parseSdlTextT (SdlPrintT.printSchemaT o s) = docToAst (schemaToDoc s)
+  ∀ (o : SdlPrintT.OptsT) (s : SchemaD), printTextWF o s = true →
+    parseSdlTextT (SdlPrintT.printSchemaT o s) = docToAst (printedDoc s)
 
 /-- the text-level round trip: the text parses to a tree `d` which is the tree of a document `doc` (the wire image the
-    builder consumes) that builds to the schema -/
+    builder consumes) that builds to the schema, its lists in printing order -/
 def TextRoundtrip (o : SdlPrintT.OptsT) (s : SchemaD) : Prop :=
-  ∃ (d : Document) (doc : Doc), parseSdlTextT (SdlPrintT.printSchemaT o s) = some d ∧ docToAst doc = some d ∧ build doc = .ok s
+  ∃ (d : Document) (doc : Doc), parseSdlTextT (SdlPrintT.printSchemaT o s) = some d ∧ docToAst doc = some d ∧
+    build doc = .ok (printOrder s)
 
-/-- `print_schema_text_parses_partial` — LAYER (i) of the statement: schemas in which no description is printed and no
-    argument / input field has a default value (all six kinds of types, fields with arguments, `implements`, unions, enums,
-    input objects, `@deprecated` with and without reason, directive definitions, the `schema` block), every indentation string
-    over {space, tab}.  MISSING for `PrintSchemaTextParsesStatement`: printed descriptions (the three layouts of
-    `print_description`, the one-argument-per-line layout of `print_arguments`) and default values (`litText`). -/
-theorem print_schema_text_parses_partial (o : SdlPrintT.OptsT) (s : SchemaD) (hs : InPrintOrder s)
-    (hwf : printTextWF o s = true) (hp : NoDescNoDefault s) :
-    parseSdlTextT (SdlPrintT.printSchemaT o s) = docToAst (schemaToDoc s) :=
-  parse_printSchemaT_layer1 o s hs hwf hp
+/-- `print_schema_text_parses_ordered` — the statement for a schema whose lists are already in printing order (all six
+    kinds of types, arguments in both layouts of `print_arguments`, descriptions in every position and in the three layouts
+    of `print_description`, default values, `@deprecated`, directive definitions, the `schema` block, every indentation
+    over {space, tab}) -/
+theorem print_schema_text_parses_ordered (o : SdlPrintT.OptsT) (s : SchemaD) (hs : InPrintOrder s)
+    (hwf : printTextWF o s = true) : parseSdlTextT (SdlPrintT.printSchemaT o s) = docToAst (schemaToDoc s) :=
+  parse_printSchemaT_full o s hs hwf
 
-/-- `text_roundtrip_of_parses` — COMPOSITION with sch2's `print_build_roundtrip`: the statement for `s` gives the text-level
-    round trip for `s` -/
-theorem text_roundtrip_of_parses (o : SdlPrintT.OptsT) (s : SchemaD)
-    (hp : parseSdlTextT (SdlPrintT.printSchemaT o s) = docToAst (schemaToDoc s)) (hwf : printBuildWF s = true) :
-    TextRoundtrip o s := by
-  have hd := docToAst_schemaToDoc s
-  exact ⟨_, schemaToDoc s, by rw [hp, hd], hd, print_build_roundtrip s hwf⟩
+/-- `printOrder_inPrintOrder` — sorting is idempotent on lists with pairwise distinct names -/
+theorem printOrder_inPrintOrder (s : SchemaD) (h : namesUnique s = true) : InPrintOrder (printOrder s) :=
+  inPrintOrder_printOrder s h
 
-/-- `text_roundtrip_partial` — LAYER (i), composed: `build (parse (to_string s)) = s` at text level -/
-theorem text_roundtrip_partial (o : SdlPrintT.OptsT) (s : SchemaD) (hs : InPrintOrder s) (hwf : printTextWF o s = true)
-    (hp : NoDescNoDefault s) (hb : printBuildWF s = true) : TextRoundtrip o s :=
-  text_roundtrip_of_parses o s (print_schema_text_parses_partial o s hs hwf hp) hb
+/-- `printSchemaT_order_independent` — the printed text does not depend on the order of `s.types` / `s.directives` (the
+    printer sorts them; default values look types up by name) -/
+theorem printSchemaT_order_independent (o : SdlPrintT.OptsT) (s : SchemaD) (h : namesUnique s = true) :
+    SdlPrintT.printSchemaT o (printOrder s) = SdlPrintT.printSchemaT o s := printSchemaT_printOrder o s h
+
+/-- `printTextWF_order_independent` — neither does the predicate -/
+theorem printTextWF_order_independent (o : SdlPrintT.OptsT) (s : SchemaD) (h : namesUnique s = true) :
+    printTextWF o (printOrder s) = printTextWF o s := printTextWF_printOrder o s h
+
+/-- `print_schema_text_parses` — THE STATEMENT, in full -/
+theorem print_schema_text_parses : PrintSchemaTextParsesStatement := by
+  intro o s hwf
+  have hu := namesUnique_of_wf o s hwf
+  rw [← printSchemaT_printOrder o s hu, printedDoc_eq]
+  exact parse_printSchemaT_full o (printOrder s) (inPrintOrder_printOrder s hu) (by rw [printTextWF_printOrder o s hu]; exact hwf)
+
+/-- `text_roundtrip` — `build (parse (to_string s)) = s` at TEXT level, composed with sch2's `print_build_roundtrip`: for a
+    schema that satisfies the lexical predicate `printTextWF` and whose printing order satisfies `printBuildWF`, the printed
+    text is accepted by lexer and parser and the document it parses to builds to the schema (lists in printing order) -/
+theorem text_roundtrip (o : SdlPrintT.OptsT) (s : SchemaD) (hwf : printTextWF o s = true)
+    (hb : printBuildWF (printOrder s) = true) : TextRoundtrip o s := by
+  have hd := docToAst_schemaToDoc (printOrder s)
+  exact ⟨_, printedDoc s, by rw [print_schema_text_parses o s hwf, printedDoc_eq, hd], hd, print_build_roundtrip _ hb⟩
+
+/-- `printOrder_of_ordered` — a schema in printing order is its own printing order -/
+theorem printOrder_of_ordered (s : SchemaD) (hs : InPrintOrder s) : printOrder s = s := by
+  unfold printOrder; rw [hs.1, hs.2]
 
 /-! ### non-vacuity -/
 
@@ -83,13 +102,29 @@ def plainShop : SchemaD :=
     directives := [{ name := "tag", locations := ["FIELD", "QUERY"], args := [{ name := "name", type := .named "String" }] }],
     query := some "Root" }
 
-example : TextRoundtrip {} plainShop :=
-  text_roundtrip_partial {} plainShop ⟨by rfl, by rfl⟩ (by decide) (by
-    refine ⟨fun t ht => ?_, fun d hd => ?_⟩
-    · simp only [plainShop, List.mem_cons, List.not_mem_nil, or_false] at ht
-      rcases ht with rfl | rfl | rfl | rfl | rfl | rfl <;>
-        simp [descToDoc, argPlain]
-    · simp only [plainShop, List.mem_cons, List.not_mem_nil, or_false] at hd
-      subst hd; simp [descToDoc, argPlain]) (by decide)
+example : TextRoundtrip {} plainShop := text_roundtrip {} plainShop (by decide) (by decide)
+example : build (printedDoc plainShop) = .ok plainShop := by
+  have := print_build_roundtrip (printOrder plainShop) (by decide)
+  rwa [printOrder_of_ordered plainShop ⟨by rfl, by rfl⟩] at this
+
+/-- `shop` (NOT in printing order; descriptions on types, enum values, input fields and a directive; default values of every
+    input kind) and `shopLower` (the `schema` block is printed) -/
+example : TextRoundtrip {} shop := text_roundtrip {} shop (by decide) (by decide)
+example : TextRoundtrip {} shopLower := text_roundtrip {} shopLower (by decide) (by decide)
+
+/-- descriptions in the three layouts of `print_description` (one line; several lines; a first line that starts with white
+    space), a description that ends with a quote, described arguments (one argument per line), tab indentation -/
+def descShop : SchemaD :=
+  { types := [
+      { kind := .object, name := "Query", desc := some "The root.\n\n  indented line\nlast line",
+        fields := [{ name := "a", type := .named "Int", desc := some "  leads with blanks",
+                     args := [{ name := "x", type := .named "Int", desc := some "the \"x\"", hasDefault := true, default := .num 3 },
+                              { name := "y", type := .named "String" }] },
+                   { name := "b", type := .named "String", desc := some "say \"\"\"hi\"\"\" twice\nover" }] }],
+    directives := [{ name := "tag", locations := ["FIELD"], args := [{ name := "n", type := .named "Int", desc := some "how many" }] }],
+    query := some "Query" }
+
+example : TextRoundtrip {} descShop := text_roundtrip {} descShop (by decide) (by decide)
+example : TextRoundtrip { indent := [9] } descShop := text_roundtrip _ descShop (by decide) (by decide)
 
 end PyGql.Props.C12
